@@ -46,6 +46,26 @@ def gen_frame(rng):
     return {"labels": labels, "cols": cols, "nrows": nrows, "index": rng.choice(["default", "str", "rev", "dup"])}
 
 
+def fixed_frames():
+    """frames whose columns go through every numeric / temporal / string coercion, under every kind of row index"""
+    cols = [("z", {"values": [["complex", 1.0, 0.0], ["complex", 2.0, 0.0], ["complex", 3.0, 0.0]], "dtype": "complex128"}),
+            ("zf", {"values": [["complex", 1.5, 0.0], ["nan"], ["complex", 3.0, 0.0]], "dtype": "complex128"}),
+            ("f", {"values": [["float", 1.0], ["nan"], ["float", 3.0]], "dtype": "float64"}),
+            ("s", {"values": [["str", "1.5"], ["str", "2.5"], ["none"]], "dtype": "object"}),
+            ("b", {"values": [["str", "yes"], ["str", "no"], ["str", "yes"]], "dtype": "object"}),
+            ("d", {"values": [["dt", "2020-01-01T00:00:00"], ["NaT"], ["dt", "2021-02-03T00:00:00"]], "dtype": "datetime64[ns]"}),
+            ("p", {"values": [["str", "/a/b"], ["none"], ["str", "/c"]], "dtype": "object"}),
+            ("u", {"values": [["str", "http://a.b/c"], ["str", "https://x.y/z"], ["none"]], "dtype": "object"}),
+            ("t", {"values": [["str", "2020-01-01 10:00:00"], ["str", "2021-02-03 11:30:00"], ["none"]], "dtype": "object"})]
+    out = []
+    for idx in ("default", "str", "rev", "dup", "same", "mixed"):
+        for lo in (0, 3, 6):
+            sel = cols[lo:lo + 3]
+            out.append({"labels": [l for l, _ in sel], "cols": [dict(r, index="default", name=None, stream="fixed") for _, r in sel],
+                        "nrows": 3, "index": idx})
+    return out
+
+
 def build(fr):
     idx = G.gamma_index(fr["index"], fr["nrows"])
     data = {}
@@ -119,6 +139,30 @@ def check(fr, order):
             if canon_series(out[l]) != want:
                 add("C08", "frame-cast-column-differs", "cast column %r differs from the single-Series cast" % (l,))
                 break
+    # C03 / C04 on the frame: every cast column belongs to, and is detected as, the type inferred for it; inferring or
+    # casting the cast frame again changes nothing
+    if res["cast"][0] == "ok" and res["infer"][0] == "ok" and isinstance(res["cast"][1], pd.DataFrame) \
+            and list(res["cast"][1].columns) == list(df.columns):
+        out, inf = res["cast"][1], res["infer"][1]
+        for l in df.columns:
+            t = inf[l]
+            cin = outcome(lambda: bool(out[l] in t))
+            if cin != ["ok", True]:
+                add("C03", "frame:cast-not-in-inferred:%s" % t, "frame column %r inferred %s but its cast data is not contained in it (%s)" % (l, t, cin))
+                continue
+            det = outcome(lambda: str(ts.detect_type(out[l])))
+            if det != ["ok", str(t)]:
+                add("C03", "frame:detect-of-cast:%s" % t, "frame column %r inferred %s, detecting its cast data gives %s" % (l, t, det))
+        again = outcome(lambda: ts.infer_type(out))
+        if again[0] == "ok" and {repr(a): str(b) for a, b in again[1].items()} != {repr(a): str(b) for a, b in inf.items()}:
+            add("C04", "frame:reinfer", "inferring the cast frame gives %s, first %s" % ({repr(a): str(b) for a, b in again[1].items()},
+                                                                                     {repr(a): str(b) for a, b in inf.items()}))
+        recast = outcome(lambda: ts.cast_to_inferred(out))
+        if recast[0] == "ok" and isinstance(recast[1], pd.DataFrame) and list(recast[1].columns) == list(out.columns):
+            for l in out.columns:
+                if canon_series(recast[1][l]) != canon_series(out[l]):
+                    add("C04", "frame:recast", "casting the already-cast frame changed column %r" % (l,))
+                    break
     # functional wrappers
     for name, fn, key in (("detect_type", F.detect_type, "detect"), ("infer_type", F.infer_type, "infer")):
         r = outcome(lambda: fn(df, ts))
@@ -165,10 +209,15 @@ def _worker(args):
 
 
 def run(tier, seed, n=None, nproc=16):
+    return _run(tier, seed, n, nproc)
+
+
+def _run(tier, seed, n=None, nproc=16):
     n = n or (250 if tier == "quick" else 5000)
     rng = rng_for(seed, "frame")
     frames = [gen_frame(rng) for _ in range(n)]
     frames.append({"labels": [], "cols": [], "nrows": 3, "index": "str"})
+    frames = fixed_frames() + frames
     # long frames (>= 1000 rows): a sampling shortcut in the frame path would make these differ from the per-Series results
     for k in range(2 if tier == "quick" else 12):
         nrows = rng.choice([1000, 1500, 3000])
